@@ -3,6 +3,9 @@ package main
 import (
 	"fmt"
 	"go/types"
+	"os"
+	"strings"
+	"runtime/debug"
 
 	"golang.org/x/tools/go/ssa"
 )
@@ -46,6 +49,10 @@ type structureError struct{ msg string }
 func (e structureError) Error() string { return e.msg }
 
 func bail(format string, args ...interface{}) {
+	if os.Getenv("GOVC_TRACE") != "" {
+		fmt.Fprintf(os.Stderr, "bail: "+format+"\n", args...)
+		debug.PrintStack()
+	}
 	panic(structureError{fmt.Sprintf(format, args...)})
 }
 
@@ -332,5 +339,48 @@ func (x *Exec) nameValue(hint string, v Value) Value {
 
 // mergeValues builds ite(cond, a, b) leafwise.
 func mergeValues(cond T, a, b Value) (Value, bool) {
-	return zipLeaves(a, b, func(p, q Sc) Sc { return Sc{T: mkIte(cond, p.T, q.T), Signed: p.Signed} })
+	return zipLeaves(a, b, func(p, q Sc) Sc { return Sc{T: mergeLeaf(cond, p.T, q.T), Signed: p.Signed} })
+}
+
+// defBody looks through one level of naming (set by the VC under construction).
+var defBody func(name string) string
+
+// mergeLeaf is ite(cond, p, q) with one normalisation: when one side is the other XOR-ed with
+// something (the shape of `if c { h ^= x }`), the result is written h ^ ite(c, x, 0), which is the
+// form the hash specifications use and lets XOR chains cancel syntactically.
+func mergeLeaf(cond, p, q T) T {
+	if p.S == q.S || p.W() == 0 || defBody == nil {
+		return mkIte(cond, p, q)
+	}
+	xorOf := func(t T) (string, string, bool) {
+		b := t.S
+		if isAtom(t) {
+			b = defBody(t.S)
+		}
+		if !strings.HasPrefix(b, "(bvxor ") {
+			return "", "", false
+		}
+		parts := splitSexprs(b[len("(bvxor ") : len(b)-1])
+		if len(parts) != 2 {
+			return "", "", false
+		}
+		return parts[0], parts[1], true
+	}
+	if x, y, ok := xorOf(p); ok {
+		if x == q.S {
+			return bvbin("bvxor", q, mkIte(cond, T{y, p.Sort}, lit0(p.W())))
+		}
+		if y == q.S {
+			return bvbin("bvxor", q, mkIte(cond, T{x, p.Sort}, lit0(p.W())))
+		}
+	}
+	if x, y, ok := xorOf(q); ok {
+		if x == p.S {
+			return bvbin("bvxor", p, mkIte(cond, lit0(p.W()), T{y, p.Sort}))
+		}
+		if y == p.S {
+			return bvbin("bvxor", p, mkIte(cond, lit0(p.W()), T{x, p.Sort}))
+		}
+	}
+	return mkIte(cond, p, q)
 }
